@@ -57,7 +57,7 @@ func genC12(r *simrt.Rand, tier string) json.RawMessage {
 	rpcs := []string{"Insert", "Update", "Remove", "BatchInsert", "BatchUpdate", "BatchRemove", "PartitionBatchInsert", "PartitionBatchUpdate", "PartitionBatchRemove",
 		"PartitionInfo", "Search", "SearchPartitions", "Create", "Get", "Delete", "GetDatasetSize", "List"}
 	n := r.Range(1, 6)
-	if r.Bool(0.15) {
+	if r.Bool(0.2) {
 		// a dataset is deleted while requests are writing to it (the partitions' raft groups
 		// are unloaded under the running handlers)
 		n = r.Range(1, 3)
@@ -319,6 +319,14 @@ func (r *W3Run) hostile(h HReq, good *dsInfo) (panicked string, err error) {
 				return n.svcDM.Delete(ctx, &pb.UUIDRequest{Id: vid.Bytes()})
 			}))
 			s.out.Stat("datasets_deleted_under_hostile_traffic", 1)
+			// ... and more of the same requests keep arriving while the deletion makes its way
+			// through the cluster: every few milliseconds one more, through every node
+			for j := 0; j < 12; j++ {
+				s.runFor(time.Duration(1+(int(h.K)+j*7)%5) * time.Millisecond)
+				if q := s.nodes[(h.Node+j)%len(s.nodes)]; q.alive {
+					extra = append(extra, s.client(q, label, 20*time.Second, call))
+				}
+			}
 		}
 	}
 	s.runUntil(func() bool {
